@@ -142,7 +142,7 @@ package gzip
 //@   requires typeis(r, *bufio.Reader) ==> brOK(r.(*bufio.Reader))
 //@   requires typeis(z.decompressor, *github.com/intel/fastgo/compress/flate.decompressor) ==> ((z.decompressor.(*github.com/intel/fastgo/compress/flate.decompressor).rBuf != nil ==> brOK(z.decompressor.(*github.com/intel/fastgo/compress/flate.decompressor).rBuf)) && tabsOK(&z.decompressor.(*github.com/intel/fastgo/compress/flate.decompressor).state))
 //@   modifies *z, **z.decompressor, **r, extReads, srcConsumed, peekErr, rfErr, rfN, srcMark, lastCrc, lastReadN, lastReadErr, unixCalls, lastUnixSec, lastStdResetDictNil, lastByteErr
-//@   ensures[C13 fresh] result == nil ==> grBase(z) && z.err == nil && z.multistream && z.size == 0 && z.digest == 0
+//@   ensures[C08 C13 fresh] result == nil ==> grBase(z) && z.err == nil && z.multistream && z.size == 0 && z.digest == 0
 //@   ensures[C13 C15] z.err == result
 //@   ensures[C05 C08 C13 src] typeis(r, *bufio.Reader) ==> z.r == r.(*bufio.Reader)
 
